@@ -1162,9 +1162,13 @@ func EvalProgram(progSrc string, files []InputFile, rootSelectors []string, stdo
 	for _, file := range files {
 		// for each json value
 		d := json.NewDecoder(file.Reader)
-		for d.More() {
+		for {
 			var rootValue any
 			err := d.Decode(&rootValue)
+			if err == io.EOF {
+				// clean end of input
+				break
+			}
 			if err != nil {
 				return &ev, JsonError{err.Error(), file.Name}
 			}
